@@ -103,13 +103,17 @@ func checkC02(r *Run) {
 		}
 	}
 	r.Count("exhaustive_chain_shapes", len(specs))
-	total := ngraphs + len(specs)
+	cycles := starCycleGraphs()
+	r.Count("export_star_cycle_graphs", len(cycles))
+	total := ngraphs + len(specs) + len(cycles)
 	parallel(total, 16, func(i int) {
 		rng := newRng(r.Seed, fmt.Sprint("c02g", i))
 		o := ggenOpts{MaxMods: 3 + rng.Intn(6), Cycles: rng.Intn(3) != 0, Dynamic: rng.Intn(2) == 0, PkgType: rng.Intn(3) == 0}
 		var g ggraph
 		if i < len(specs) {
 			g = graphGenSpec(rng, ggenOpts{MaxMods: 4}, &specs[i])
+		} else if i >= ngraphs+len(specs) {
+			g = cycles[i-ngraphs-len(specs)]
 		} else {
 			g = graphGen(rng, o)
 		}
@@ -188,7 +192,20 @@ func checkC02(r *Run) {
 			}
 			if !sameTrace(ref.Trace, got.Trace) {
 				_, a, b := firstTraceDiff(ref.Trace, got.Trace)
-				fail("trace", a, b)
+				kind := "trace"
+				if len(g.Desc) == 1 && strings.HasPrefix(g.Desc[0], "star-cycle") && len(ref.Trace) == len(got.Trace) {
+					// name the namespaces that are wrong, so that a listed deviation of one rotation does not hide another one
+					var wrong []string
+					for k := range ref.Trace {
+						if ref.Trace[k] != got.Trace[k] {
+							if f := strings.Split(ref.Trace[k], ","); len(f) > 1 {
+								wrong = append(wrong, strings.Trim(f[1], "\""))
+							}
+						}
+					}
+					kind = "trace[wrong=" + strings.Join(wrong, "+") + "]"
+				}
+				fail(kind, a, b)
 				continue
 			}
 			if termClass(ref.Term) != termClass(got.Term) {
@@ -244,6 +261,9 @@ func jobsFile(jobs []nodeJob, id string) string {
 
 // edgeKinds: the sorted set of edge forms in a graph (signature component)
 func edgeKinds(g ggraph) string {
+	if len(g.Desc) == 1 && strings.HasPrefix(g.Desc[0], "star-cycle") {
+		return g.EntryKind + "-entry{" + strings.ReplaceAll(g.Desc[0], " ", ",") + "}"
+	}
 	set := map[string]bool{}
 	for _, d := range g.Desc {
 		f := strings.Fields(d)
